@@ -183,8 +183,7 @@ LEN_FLOOR = 8
 LEN_EXEMPT = ["format::serialization_buffer", "Record::calculate_disk_size"]
 
 
-def check_len(ctx):
-    inst = "C05.len"
+def check_len(ctx, inst="C05.len"):
     n_ok = 0
     for b in ctx.prog.product_bodies():
         ts = R.call("RecordFormat::total_size")(b)
